@@ -485,6 +485,25 @@ func lastPos(in ssa.Instruction, prev token.Pos) token.Pos {
 func translate(g *fn) {
 	f := g.f
 	cur := f.Pos()
+	// Parameters (and captured variables) that can reference mutable cells holding
+	// references may share such cells when the function is entered: a store
+	// through one must be visible through the others.
+	var cps []int
+	for i, fv := range f.FreeVars {
+		if container(fv.Type()) {
+			cps = append(cps, i)
+		}
+	}
+	for i, pr := range f.Params {
+		if container(pr.Type()) {
+			cps = append(cps, g.nfree+i)
+		}
+	}
+	if len(cps) > 1 {
+		for _, i := range cps {
+			g.alias(i, cps, cur, "parameters may share mutable cells at entry")
+		}
+	}
 	for _, b := range f.Blocks {
 		for _, in := range b.Instrs {
 			cur = lastPos(in, cur)
@@ -635,18 +654,18 @@ var externs = map[string]extEffect{
 	"sort.Search":      {callback: true},
 	"sort.Ints":        {sorts: []int{0}},
 
-	"slices.Sort":                 {sorts: []int{0}},
-	"slices.SortFunc":             {sorts: []int{0}, callback: true},
-	"slices.SortStableFunc":       {sorts: []int{0}, callback: true},
-	"slices.Delete":               {sorts: []int{0}, retAlias: []int{0}},
-	"slices.Insert":               {sorts: []int{0}, retAlias: []int{0, 2}},
-	"slices.Index":                {},
-	"slices.Contains":             {},
-	"slices.BinarySearch":         {},
-	"slices.BinarySearchFunc":     {callback: true},
-	"slices.Equal":                {},
-	"slices.Reverse":              {sorts: []int{0}},
-	"slices.Clone":                {},
+	"slices.Sort":                              {sorts: []int{0}},
+	"slices.SortFunc":                          {sorts: []int{0}, callback: true},
+	"slices.SortStableFunc":                    {sorts: []int{0}, callback: true},
+	"slices.Delete":                            {sorts: []int{0}, retAlias: []int{0}},
+	"slices.Insert":                            {sorts: []int{0}, retAlias: []int{0, 2}},
+	"slices.Index":                             {},
+	"slices.Contains":                          {},
+	"slices.BinarySearch":                      {},
+	"slices.BinarySearchFunc":                  {callback: true},
+	"slices.Equal":                             {},
+	"slices.Reverse":                           {sorts: []int{0}},
+	"slices.Clone":                             {retAlias: []int{0}},
 	"golang.org/x/exp/slices.Sort":             {sorts: []int{0}},
 	"golang.org/x/exp/slices.SortFunc":         {sorts: []int{0}, callback: true},
 	"golang.org/x/exp/slices.SortStableFunc":   {sorts: []int{0}, callback: true},
@@ -657,7 +676,7 @@ var externs = map[string]extEffect{
 	"golang.org/x/exp/slices.BinarySearch":     {},
 	"golang.org/x/exp/slices.BinarySearchFunc": {callback: true},
 	"golang.org/x/exp/slices.Equal":            {},
-	"golang.org/x/exp/slices.Clone":            {},
+	"golang.org/x/exp/slices.Clone":            {retAlias: []int{0}},
 
 	"(encoding/binary.littleEndian).PutUint64": {writes: []int{1}},
 	"(encoding/binary.littleEndian).PutUint32": {writes: []int{1}},
@@ -698,9 +717,9 @@ var stringerPrefixes = []string{"fmt."}
 
 // effects of methods invoked through interfaces that are NOT package interfaces
 var extInvoke = map[string]extEffect{
-	"io.Writer.Write": {},                                   // reads p
-	"io.Reader.Read":  {writes: []int{1}},                   // writes p (args index 1: receiver is 0)
-	"hash.Hash.Write": {},                                   // reads p
+	"io.Writer.Write": {},                                     // reads p
+	"io.Reader.Read":  {writes: []int{1}},                     // writes p (args index 1: receiver is 0)
+	"hash.Hash.Write": {},                                     // reads p
 	"hash.Hash.Sum":   {writes: []int{1}, retAlias: []int{1}}, // appends to b
 	"hash.Hash.Reset": {},
 	"error.Error":     {},
@@ -818,8 +837,13 @@ func implementers(it types.Type, method string) []*ssa.Function {
 	}
 	var r []*ssa.Function
 	seen := map[*ssa.Function]bool{}
-	for _, m := range pkg.Members {
-		t, ok := m.(*ssa.Type)
+	var mnames []string
+	for n := range pkg.Members {
+		mnames = append(mnames, n)
+	}
+	sort.Strings(mnames)
+	for _, n := range mnames {
+		t, ok := pkg.Members[n].(*ssa.Type)
 		if !ok {
 			continue
 		}
@@ -916,13 +940,12 @@ func (g *fn) emitCall(ci ssa.CallInstruction, callee *ssa.Function, pre []int, a
 	g.emit(stmt{k: KCall, rets: rs, callee: cg, ys: as, pos: pos, why: why})
 	// a reference-carrying result may share mutable cells with reference-carrying arguments
 	if ci != nil {
-		if v, ok := ci.(*ssa.Call); ok {
+		if _, ok := ci.(*ssa.Call); ok {
 			res := callee.Signature.Results()
 			for k := 0; k < res.Len() && k < len(rs); k++ {
 				if !container(res.At(k).Type()) {
 					continue
 				}
-				_ = v
 				for i, a := range args {
 					if _, isC := a.(*ssa.Const); isC {
 						continue
@@ -1103,10 +1126,7 @@ func translateCall(g *fn, ci ssa.CallInstruction, pos token.Pos) {
 	}
 }
 
-func typeKey(t types.Type) string {
-	s := t.String()
-	return s
-}
+func typeKey(t types.Type) string { return t.String() }
 
 func (g *fn) flow0(dst, src ssa.Value, pos token.Pos, why string) {
 	// result component of a call-like builtin derived from src
@@ -1183,14 +1203,11 @@ func (g *fn) applyExt(eff extEffect, args []ssa.Value, rets []int, res ssa.Value
 					g.conservative(args, nil, pos, why)
 				}
 				for _, m := range cands {
-					margs := []ssa.Value{args[0]}
 					cg := fns[m]
-					pre := []int{}
-					as := []int{g.R(margs[0])}
+					as := []int{g.R(args[0])}
 					for len(as) < cg.nparams {
 						as = append(as, g.shared())
 					}
-					_ = pre
 					g.emit(stmt{k: KCall, callee: cg, ys: as, pos: pos, why: why + " -> " + cg.name})
 				}
 			}
